@@ -22,6 +22,36 @@ Definition benign (o : coutev) : bool :=
   | _ => true
   end.
 
+(* hdrErr only ever holds the error of a malformed response header *)
+Definition herr_ok (h : option cerr) : Prop := forall e, h = Some e -> e = CEMalformed.
+
+(* Parameters of the whole analysis (instantiated per theorem):
+   Eok sid e : the connection may put e into the empty Err of a Ctx whose stream is sid;
+   Vok x x'  : what else it may do to a Ctx (its response, gotStatus);
+   Wok c c'  : what it may do to the header-block registers of the connection. *)
+Class cparams : Type := mkCParams {
+  Eok : N -> cerr -> Prop;
+  Vok : cctx -> cctx -> Prop;
+  Wok : forall hstate : Type, cconn hstate -> cconn hstate -> Prop;
+  V_refl : forall x, Vok x x;
+  V_trans : forall x y z, Vok x y -> Vok y z -> Vok x z;
+  V_frame : forall x x', ct_resp x' = ct_resp x -> ct_gotStatus x' = ct_gotStatus x -> Vok x x';
+  W_refl : forall h (c : cconn h), Wok h c c;
+  W_trans : forall h (a b c : cconn h), Wok h a b -> Wok h b c -> Wok h a c;
+  W_frame : forall h (c c' : cconn h), cc_hdrStream c' = cc_hdrStream c -> cc_hdrStatus c' = cc_hdrStatus c ->
+            cc_hdrErr c' = cc_hdrErr c -> cc_hdrEndStream c' = cc_hdrEndStream c -> Wok h c c'
+}.
+(* every error that is neither retryable nor nil may be put anywhere (asked by the lemmas about the loops) *)
+Class cplain (CP : cparams) : Prop :=
+  Enr : forall sid e, cl_retryable e = false -> e <> CENil -> Eok sid e.
+
+Section WithE.
+Context {CP : cparams} {NR : cplain CP}.
+#[local] Hint Resolve V_refl W_refl V_frame W_frame : core.
+Definition Eall (e : cerr) : Prop := forall sid, Eok sid e.
+Lemma Eall_nr e : cl_retryable e = false -> e <> CENil -> Eall e.
+Proof. intros A B sid. apply Enr; assumption. Qed.
+
 (* one Ctx under the connection's goroutines (everything but its caller's own steps and writeRequest's
    taking it on): only Err (once, while the caller has not taken it back), finished, the response and
    the body-closed mark can change *)
@@ -39,8 +69,10 @@ Record cev (x x' : cctx) : Prop := mkCev {
   cev_returned : ct_returned x' = ct_returned x;
   cev_pooled : ct_pooled x' = ct_pooled x;
   cev_lckStuck : ct_lckStuck x' = ct_lckStuck x;
-  cev_err : ct_err x' = ct_err x \/ (ct_err x = None /\ ct_resolved x = false);
-  cev_finished : ct_finished x = true -> ct_finished x' = true
+  cev_err : ct_err x' = ct_err x \/
+            (ct_err x = None /\ ct_resolved x = false /\ exists e, ct_err x' = Some e /\ Eok (ct_sid x) e);
+  cev_finished : ct_finished x = true -> ct_finished x' = true;
+  cev_v : Vok x x'
 }.
 
 Lemma cev_refl x : cev x x.
@@ -48,38 +80,42 @@ Proof. constructor; auto. Qed.
 
 Lemma cev_trans x y z : cev x y -> cev y z -> cev x z.
 Proof.
-  intros [] []. constructor; try congruence; auto.
-  destruct cev_err0 as [E|[E R]], cev_err1 as [F|[F R']]; [left; congruence | right | right; auto | right; auto].
-  split; congruence.
+  intros [] []. constructor; try congruence; auto; [|eapply V_trans; eassumption].
+  destruct cev_err0 as [A|(A & R & e & B & C)], cev_err1 as [F|(F & R' & e' & B' & C')].
+  - left. congruence.
+  - right. split; [congruence|]. split; [congruence|]. exists e'. split; [assumption|]. rewrite <- cev_sid0. assumption.
+  - right. split; [assumption|]. split; [assumption|]. exists e. split; [congruence | assumption].
+  - congruence.
 Qed.
 
 Lemma cev_answered x x' : cev x x' -> answered x = true -> answered x' = true.
 Proof.
   intros [] H. unfold answered in *. rewrite cev_returned0. destruct (ct_returned x); [reflexivity|].
-  cbn [orb] in *. destruct cev_err0 as [E|[E _]]; [rewrite E; assumption|]. rewrite E in H. discriminate.
+  cbn [orb] in *. destruct cev_err0 as [A|(A & _)]; [rewrite A; assumption|]. rewrite A in H. discriminate.
 Qed.
 
 (* the atomic updates *)
-Lemma cev_resolve x e : cev x (cl_ctx_resolve x e).
+Lemma cev_resolve x e : Eok (ct_sid x) e -> cev x (cl_ctx_resolve x e).
 Proof.
-  rewrite cl_ctx_resolve_eq. destruct (ct_resolved x) eqn:R; cbn [negb andb]; [apply cev_refl|].
-  destruct (ct_err x) eqn:E; [apply cev_refl|]. constructor; cbn; auto.
+  intro He. rewrite cl_ctx_resolve_eq. destruct (ct_resolved x) eqn:R; cbn [negb andb]; [apply cev_refl|].
+  destruct (ct_err x) eqn:A; [apply cev_refl|]. constructor; cbn; auto.
+  right. split; [exact A|]. split; [exact R|]. exists e. auto.
 Qed.
 Lemma cev_finished_true x : cev x (ctu_finished x true).
 Proof. constructor; cbn; auto. Qed.
 Lemma cev_bodyClosed x b : cev x (ctu_bodyClosed x b).
 Proof. constructor; cbn; auto. Qed.
-Lemma cev_resp x r : cev x (ctu_resp x r).
-Proof. constructor; cbn; auto. Qed.
-Lemma cev_gotStatus x b : cev x (ctu_gotStatus x b).
-Proof. constructor; cbn; auto. Qed.
-Lemma cev_finish_resolve x e : cev x (cl_ctx_resolve (ctu_finished x true) e).
-Proof. eapply cev_trans; [apply cev_finished_true | apply cev_resolve]. Qed.
+Lemma cev_resp x r : Vok x (ctu_resp x r) -> cev x (ctu_resp x r).
+Proof. intro. constructor; cbn; auto. Qed.
+Lemma cev_gotStatus x b : Vok x (ctu_gotStatus x b) -> cev x (ctu_gotStatus x b).
+Proof. intro. constructor; cbn; auto. Qed.
+Lemma cev_finish_resolve x e : Eok (ct_sid x) e -> cev x (cl_ctx_resolve (ctu_finished x true) e).
+Proof. intro He. eapply cev_trans; [apply cev_finished_true | apply cev_resolve; exact He]. Qed.
 
 Lemma answered_resolve x e : ct_resolved x = false -> answered (cl_ctx_resolve x e) = true.
 Proof.
   intro R. rewrite cl_ctx_resolve_eq, R. cbn [negb andb]. unfold answered.
-  destruct (ct_err x) eqn:E; cbn; [rewrite E|]; apply orb_true_r.
+  destruct (ct_err x) eqn:A; cbn; [rewrite A|]; apply orb_true_r.
 Qed.
 
 Section Eff.
@@ -106,7 +142,9 @@ Record eff (P : coutev -> Prop) (c c' : cconn hstate) : Prop := mkEff {
   e_out : exists l, cc_out c' = l ++ cc_out c /\ Forall P l;
   e_outQ : Forall (fun o => benign o = true) (cc_outQ c) -> Forall (fun o => benign o = true) (cc_outQ c');
   e_pending : forall pb', In pb' (cc_pending c') ->
-              exists pb, In pb (cc_pending c) /\ pb_id pb' = pb_id pb /\ pb_tag pb' = pb_tag pb
+              exists pb, In pb (cc_pending c) /\ pb_id pb' = pb_id pb /\ pb_tag pb' = pb_tag pb;
+  e_w : Wok hstate c c';
+  e_hdrErr : herr_ok (cc_hdrErr c) -> herr_ok (cc_hdrErr c')
 }.
 
 Lemma filter_nil_eq {A} (p : A -> bool) : filter p [] = [].
@@ -149,6 +187,7 @@ Proof.
     split; [reflexivity | apply Forall_app; auto].
   - intros pb H. destruct (e_pending1 _ H) as (pb1 & I1 & A1 & B1). destruct (e_pending0 _ I1) as (pb0 & I0 & A0 & B0).
     exists pb0. repeat split; congruence.
+  - eapply W_trans; eassumption.
 Qed.
 
 Lemma eff_weaken (P Q : coutev -> Prop) c c' : (forall o, P o -> Q o) -> eff P c c' -> eff Q c c'.
@@ -163,11 +202,13 @@ Lemma eff_frame P c c' l :
   cc_ctxs c' = cc_ctxs c -> cc_inQ c' = cc_inQ c -> cc_reqQueued c' = cc_reqQueued c -> cc_nextID c' = cc_nextID c ->
   cc_goAway c' = cc_goAway c -> cc_closed c' = cc_closed c -> cc_wl_done c' = cc_wl_done c -> cc_rl_done c' = cc_rl_done c ->
   cc_rl_stuck c' = cc_rl_stuck c -> cc_wl_stuck c' = cc_wl_stuck c ->
+  cc_hdrStream c' = cc_hdrStream c -> cc_hdrStatus c' = cc_hdrStatus c -> cc_hdrErr c' = cc_hdrErr c ->
+  cc_hdrEndStream c' = cc_hdrEndStream c ->
   (Forall (fun o => benign o = true) (cc_outQ c) -> Forall (fun o => benign o = true) (cc_outQ c')) ->
   (forall pb', In pb' (cc_pending c') -> exists pb, In pb (cc_pending c) /\ pb_id pb' = pb_id pb /\ pb_tag pb' = pb_tag pb) ->
   cc_out c' = l ++ cc_out c -> Forall P l -> eff P c c'.
 Proof.
-  intros H1 H2 H3 H4 H5 H6 H7 H8 H9 H10 H11 H12 H13 H14. constructor; try congruence; auto.
+  intros H1 H2 H3 H4 H5 H6 H7 H8 H9 H10 W1 W2 W3 W4 H11 H12 H13 H14. constructor; try congruence; auto; try (rewrite W3; auto).
   - intros t x H. exists x. unfold cl_ctx_get in *. rewrite H1. split; [assumption | apply cev_refl].
   - exists (fun _ => true). rewrite H2. apply filter_true.
   - exists (fun _ => true). rewrite H3. apply filter_true.
@@ -234,11 +275,13 @@ Lemma eff_frame' c c' l :
   (cc_goAway c = true -> cc_goAway c' = true) -> (cc_closed c = true -> cc_closed c' = true) ->
   cc_wl_done c' = cc_wl_done c -> cc_rl_done c' = cc_rl_done c ->
   cc_rl_stuck c' = cc_rl_stuck c -> cc_wl_stuck c' = cc_wl_stuck c ->
+  cc_hdrStream c' = cc_hdrStream c -> cc_hdrStatus c' = cc_hdrStatus c -> cc_hdrErr c' = cc_hdrErr c ->
+  cc_hdrEndStream c' = cc_hdrEndStream c ->
   (Forall (fun o => benign o = true) (cc_outQ c) -> Forall (fun o => benign o = true) (cc_outQ c')) ->
   (forall pb', In pb' (cc_pending c') -> exists pb, In pb (cc_pending c) /\ pb_id pb' = pb_id pb /\ pb_tag pb' = pb_tag pb) ->
   cc_out c' = l ++ cc_out c -> Forall P l -> eff P c c'.
 Proof.
-  intros H1 H2 H3 H4 H5 H6 H7 H8 H9 H10 H11 H12 H13 H14. constructor; try congruence; auto.
+  intros H1 H2 H3 H4 H5 H6 H7 H8 H9 H10 W1 W2 W3 W4 H11 H12 H13 H14. constructor; try congruence; auto; try (rewrite W3; auto).
   - intros t x H. exists x. unfold cl_ctx_get in *. rewrite H1. split; [assumption | apply cev_refl].
   - exists l. auto.
 Qed.
@@ -272,26 +315,30 @@ Proof.
   - apply pending_same. reflexivity.
 Qed.
 
-Lemma eff_ctx_upd c tag f : (forall x, cev x (f x)) -> eff P c (cl_ctx_upd c tag f).
+Lemma eff_ctx_upd' c tag f : (forall x, cl_ctx_get c tag = Some x -> cev x (f x)) -> eff P c (cl_ctx_upd c tag f).
 Proof.
   intro Hf. unfold cl_ctx_upd. destruct (cl_ctx_get c tag) as [x|] eqn:G; [|apply eff_refl].
-  apply eff_ctx_put with x; [|apply Hf]. rewrite (cev_tag _ _ (Hf x)).
+  apply eff_ctx_put with x; [|apply Hf, eq_refl]. rewrite (cev_tag _ _ (Hf x eq_refl)).
   destruct (cl_ctxs_get_In _ _ _ G) as [_ ->]. assumption.
 Qed.
 
-Lemma eff_resolve c tag e : eff P c (cl_resolve c tag e).
-Proof. apply eff_ctx_upd. intro x. apply cev_resolve. Qed.
+Lemma eff_ctx_upd c tag f : (forall x, cev x (f x)) -> eff P c (cl_ctx_upd c tag f).
+Proof. intro Hf. apply eff_ctx_upd'. intros x _. apply Hf. Qed.
 
-Lemma eff_resolve_all c tags e : eff P c (cl_resolve_all c tags e).
+Lemma eff_resolve c tag e : Eall e -> eff P c (cl_resolve c tag e).
+Proof. intro He. apply eff_ctx_upd. intro x. apply cev_resolve, He. Qed.
+
+Lemma eff_resolve_all c tags e : Eall e -> eff P c (cl_resolve_all c tags e).
 Proof.
-  revert c. induction tags as [|t r IH]; intro c; cbn [cl_resolve_all]; [apply eff_refl|].
-  eapply eff_trans; [apply eff_resolve | apply IH].
+  intro He. revert c. induction tags as [|t r IH]; intro c; cbn [cl_resolve_all]; [apply eff_refl|].
+  eapply eff_trans; [apply eff_resolve, He | apply IH].
 Qed.
 
 Ltac by_frame l :=
   apply (eff_frame' _ _ l);
   [ first [reflexivity | cc_unf] | apply same_filter; first [reflexivity | cc_unf] | apply same_filter; first [reflexivity | cc_unf]
   | first [reflexivity | cc_unf] | intro; first [assumption | cc_unf] | intro; first [assumption | cc_unf]
+  | first [reflexivity | cc_unf] | first [reflexivity | cc_unf] | first [reflexivity | cc_unf] | first [reflexivity | cc_unf]
   | first [reflexivity | cc_unf] | first [reflexivity | cc_unf] | first [reflexivity | cc_unf] | first [reflexivity | cc_unf]
   | | | | ].
 
@@ -317,6 +364,10 @@ Proof.
   - apply cc_rl_done_cl_take_req_count.
   - apply cc_rl_stuck_cl_take_req_count.
   - apply cc_wl_stuck_cl_take_req_count.
+  - apply cc_hdrStream_cl_take_req_count.
+  - apply cc_hdrStatus_cl_take_req_count.
+  - apply cc_hdrErr_cl_take_req_count.
+  - apply cc_hdrEndStream_cl_take_req_count.
   - rewrite cc_outQ_cl_take_req_count. auto.
   - apply pending_same, cc_pending_cl_take_req_count.
   - rewrite cc_out_cl_take_req_count. reflexivity.
@@ -353,6 +404,10 @@ Proof.
   - apply cc_rl_done_cl_conn_close.
   - apply cc_rl_stuck_cl_conn_close.
   - apply cc_wl_stuck_cl_conn_close.
+  - apply cc_hdrStream_cl_conn_close.
+  - apply cc_hdrStatus_cl_conn_close.
+  - apply cc_hdrErr_cl_conn_close.
+  - apply cc_hdrEndStream_cl_conn_close.
   - rewrite cc_outQ_cl_conn_close. auto.
   - apply pending_same, cc_pending_cl_conn_close.
   - rewrite cc_out_cl_conn_close. destruct (negb (cc_closed c) && cl_can_write c); reflexivity.
@@ -416,10 +471,10 @@ Proof.
   - destruct (cs_hasWin st); [apply eff_apply_initial_window | apply eff_refl].
 Qed.
 
-Lemma eff_finish c tag id e : eff P c (cl_finish c tag id e).
+Lemma eff_finish c tag id e : Eall e -> eff P c (cl_finish c tag id e).
 Proof.
-  unfold cl_finish. eapply eff_trans; [apply eff_take_req_count|].
-  eapply eff_trans; [|apply eff_ctx_upd; intro; apply cev_finish_resolve].
+  intro He. unfold cl_finish. eapply eff_trans; [apply eff_take_req_count|].
+  eapply eff_trans; [|apply eff_ctx_upd; intro; apply cev_finish_resolve, He].
   set (c1 := cl_take_req_count c id). destruct (cl_pend_get (cc_pending c1) id) as [pb|]; [|apply eff_refl].
   eapply eff_trans; [|apply eff_close_body].
   apply (eff_frame P c1 _ []); try reflexivity; auto. apply pending_del.
@@ -491,6 +546,7 @@ Record st_ok c : Prop := mkStOk {
   s_wl_done : cc_wl_done c = true -> cc_closed c = true /\ cc_reqQueued c = [];
   s_rl_done : cc_rl_done c = true -> cc_closed c = true;
   s_outQ : Forall (fun o => benign o = true) (cc_outQ c);
+  s_hdrErr : herr_ok (cc_hdrErr c);
   s_pending : forall pb, In pb (cc_pending c) ->
               pb_id pb < cc_nextID c /\ forall t, In (pb_id pb, t) (cc_reqQueued c) -> t = pb_tag pb
 }.
@@ -518,7 +574,7 @@ Proof.
   - intros t x' G'. destruct (eff_ctx_back _ _ _ _ _ E G') as (x & G & V). destruct (s_ret _ S _ _ G) as [A B].
     rewrite (cev_resolved _ _ V), (cev_returned _ _ V), (cev_done _ _ V). split; [assumption|]. intro R.
     destruct (B R) as [B1 B2]. split; [|assumption].
-    destruct (cev_err _ _ V) as [F|[_ F]]; [congruence|]. rewrite A, R in F. discriminate.
+    destruct (cev_err _ _ V) as [F|(_ & F & _)]; [congruence|]. rewrite A, R in F. discriminate.
   - intros t x' G'. destruct (eff_ctx_back _ _ _ _ _ E G') as (x & G & V). destruct (s_sid _ S _ _ G) as [A B].
     rewrite (cev_sid _ _ V), (cev_conn _ _ V), (e_nextID _ _ _ E). auto.
   - intros t t' x1 x1' G1 G1'. destruct (eff_ctx_back _ _ _ _ _ E G1) as (x & G & V). destruct (eff_ctx_back _ _ _ _ _ E G1') as (x' & G' & V').
@@ -531,6 +587,7 @@ Proof.
     + apply (e_closed _ _ _ E), (s_rl_done _ S W0).
     + apply (e_rl_new _ _ _ E W0 W).
   - apply (e_outQ _ _ _ E), S.
+  - apply (e_hdrErr _ _ _ E), S.
   - intros pb' H. destruct (e_pending _ _ _ E _ H) as (pb & I & A & B). destruct (s_pending _ S _ I) as [C D].
     rewrite A, B, (e_nextID _ _ _ E). split; [assumption|]. intros t J. apply D. rewrite Hq in J. apply filter_In in J. tauto.
 Qed.
@@ -575,12 +632,14 @@ Lemma effo_notes c l : Forall P l -> effo P c (cl_notes c l).
 Proof. intro H. apply effo_keep; [apply eff_notes, H | apply cc_inQ_cl_notes | apply cc_reqQueued_cl_notes]. Qed.
 Lemma effo_ctx_upd c tag f : (forall x, cev x (f x)) -> effo P c (cl_ctx_upd c tag f).
 Proof. intro H. apply effo_keep; [apply eff_ctx_upd, H | apply cc_inQ_cl_ctx_upd | apply cc_reqQueued_cl_ctx_upd]. Qed.
+Lemma effo_ctx_upd' c tag f : (forall x, cl_ctx_get c tag = Some x -> cev x (f x)) -> effo P c (cl_ctx_upd c tag f).
+Proof. intro H. apply effo_keep; [apply eff_ctx_upd', H | apply cc_inQ_cl_ctx_upd | apply cc_reqQueued_cl_ctx_upd]. Qed.
 Lemma effo_ctx_put c x x' : cl_ctx_get c (ct_tag x') = Some x -> cev x x' -> effo P c (cl_ctx_put c x').
 Proof. intros G V. apply effo_keep; [eapply eff_ctx_put; eassumption | reflexivity | reflexivity]. Qed.
-Lemma effo_resolve c tag e : effo P c (cl_resolve c tag e).
-Proof. apply effo_keep; [apply eff_resolve | apply cc_inQ_cl_resolve | apply cc_reqQueued_cl_resolve]. Qed.
-Lemma effo_resolve_all c tags e : effo P c (cl_resolve_all c tags e).
-Proof. apply effo_keep; [apply eff_resolve_all | apply cc_inQ_cl_resolve_all | apply cc_reqQueued_cl_resolve_all]. Qed.
+Lemma effo_resolve c tag e : Eall e -> effo P c (cl_resolve c tag e).
+Proof. intro He. apply effo_keep; [apply eff_resolve, He | apply cc_inQ_cl_resolve | apply cc_reqQueued_cl_resolve]. Qed.
+Lemma effo_resolve_all c tags e : Eall e -> effo P c (cl_resolve_all c tags e).
+Proof. intro He. apply effo_keep; [apply eff_resolve_all, He | apply cc_inQ_cl_resolve_all | apply cc_reqQueued_cl_resolve_all]. Qed.
 Lemma effo_set_last_err c e : effo P c (cl_set_last_err c e).
 Proof. apply effo_keep; [apply eff_set_last_err; assumption | apply cc_inQ_cl_set_last_err | apply cc_reqQueued_cl_set_last_err]. Qed.
 Lemma effo_write_out c o : benign o = true -> effo P c (cl_write_out c o).
@@ -609,6 +668,8 @@ Lemma effo_frame c c' l :
   cc_ctxs c' = cc_ctxs c -> cc_inQ c' = cc_inQ c -> cc_reqQueued c' = cc_reqQueued c -> cc_nextID c' = cc_nextID c ->
   cc_goAway c' = cc_goAway c -> cc_closed c' = cc_closed c -> cc_wl_done c' = cc_wl_done c -> cc_rl_done c' = cc_rl_done c ->
   cc_rl_stuck c' = cc_rl_stuck c -> cc_wl_stuck c' = cc_wl_stuck c ->
+  cc_hdrStream c' = cc_hdrStream c -> cc_hdrStatus c' = cc_hdrStatus c -> cc_hdrErr c' = cc_hdrErr c ->
+  cc_hdrEndStream c' = cc_hdrEndStream c ->
   (Forall (fun o => benign o = true) (cc_outQ c) -> Forall (fun o => benign o = true) (cc_outQ c')) ->
   (forall pb', In pb' (cc_pending c') -> exists pb, In pb (cc_pending c) /\ pb_id pb' = pb_id pb /\ pb_tag pb' = pb_tag pb) ->
   cc_out c' = l ++ cc_out c -> Forall P l -> effo P c c'.
@@ -630,20 +691,30 @@ Proof.
   - intro y. rewrite ct_tag_cl_ctx_resolve. apply Hg.
 Qed.
 
-Lemma resolve_all_answered c tags e t x :
+Lemma upd_resolve_get c tag g e x :
+  cl_ctx_get c tag = Some x -> (forall y, ct_tag (g y) = ct_tag y) ->
+  cl_ctx_get (cl_ctx_upd c tag (fun y => cl_ctx_resolve (g y) e)) tag = Some (cl_ctx_resolve (g x) e).
+Proof.
+  intros G Hg. rewrite cl_ctx_get_upd, N.eqb_refl, G; [reflexivity|]. intro y. rewrite ct_tag_cl_ctx_resolve. apply Hg.
+Qed.
+
+Lemma finished_resolve x e : ct_finished (cl_ctx_resolve x e) = ct_finished x.
+Proof. rewrite cl_ctx_resolve_eq. destruct (_ && _); reflexivity. Qed.
+
+Lemma resolve_all_answered c tags e t x : Eall e ->
   (forall t x, cl_ctx_get c t = Some x -> ct_resolved x = ct_returned x) -> In t tags -> cl_ctx_get c t = Some x ->
   exists x', cl_ctx_get (cl_resolve_all c tags e) t = Some x' /\ answered x' = true.
 Proof.
-  revert c x. induction tags as [|u r IH]; intros c x R I G; [destruct I|]. cbn [cl_resolve_all].
+  intro He. revert c x. induction tags as [|u r IH]; intros c x R I G; [destruct I|]. cbn [cl_resolve_all].
   assert (R' : forall t x, cl_ctx_get (cl_resolve c u e) t = Some x -> ct_resolved x = ct_returned x).
-  { intros t' x' G'. destruct (eff_ctx_back _ _ _ _ _ (eff_resolve P c u e) G') as (y & Gy & V).
+  { intros t' x' G'. destruct (eff_ctx_back _ _ _ _ _ (eff_resolve P c u e He) G') as (y & Gy & V).
     rewrite (cev_resolved _ _ V), (cev_returned _ _ V). eauto. }
   destruct I as [->|I].
   - assert (A : exists y, cl_ctx_get (cl_resolve c t e) t = Some y /\ answered y = true).
     { rewrite cl_ctx_get_resolve, N.eqb_refl, G. eexists. split; [reflexivity | apply answered_resolve'; eauto]. }
-    destruct A as (y & Gy & Ay). destruct (e_ctx _ _ _ (eff_resolve_all P (cl_resolve c t e) r e) _ _ Gy) as (z & Gz & V).
+    destruct A as (y & Gy & Ay). destruct (e_ctx _ _ _ (eff_resolve_all P (cl_resolve c t e) r e He) _ _ Gy) as (z & Gz & V).
     exists z. split; [assumption | eapply cev_answered; eassumption].
-  - destruct (e_ctx _ _ _ (eff_resolve P c u e) _ _ G) as (y & Gy & V). eapply IH; eassumption.
+  - destruct (e_ctx _ _ _ (eff_resolve P c u e He) _ _ G) as (y & Gy & V). eapply IH; eassumption.
 Qed.
 
 End EffoHelpers.
@@ -684,9 +755,9 @@ Proof.
     [rewrite cc_reqQueued_cl_close_body; cbn [cc_reqQueued ccu_pending]|]; apply cc_reqQueued_cl_take_req_count.
 Qed.
 
-Lemma effo_finish c tag id e : st_ok c -> (forall t, In (id, t) (cc_reqQueued c) -> t = tag) -> effo P c (cl_finish c tag id e).
+Lemma effo_finish c tag id e : Eall e -> st_ok c -> (forall t, In (id, t) (cc_reqQueued c) -> t = tag) -> effo P c (cl_finish c tag id e).
 Proof.
-  intros S Hid. split; [apply eff_finish; try exact Pben|]. unfold cl_finish.
+  intros He S Hid. split; [apply eff_finish; try exact Pben; exact He|]. unfold cl_finish.
   set (c2 := match cl_pend_get _ id with Some _ => _ | None => _ end).
   assert (E : eff P c c2).
   { unfold c2. eapply eff_trans; [apply eff_take_req_count|].
@@ -741,7 +812,7 @@ Proof.
       destruct (cl_delete_pending 1 [] c id) as [c1 stuck] eqn:D. cbn [fst snd] in E1, F1. subst stuck.
       cbn [fst snd]. split; [|discriminate]. split.
       * eapply eff_trans; [apply E1|]. eapply eff_trans; [apply eff_cancel_stream; try exact Pben|].
-        eapply eff_trans; [apply eff_take_req_count | apply eff_ctx_upd; intro; apply cev_finish_resolve].
+        eapply eff_trans; [apply eff_take_req_count | apply eff_ctx_upd; intro; apply cev_finish_resolve, Enr; [reflexivity | discriminate]].
       * apply (obl_take_resolve c (cl_take_req_count (cl_cancel_stream c1 id c_InternalError) id) id (pb_tag pb)
                  (fun y => ctu_finished y true) CEBody S); auto.
         -- eapply eff_trans; [apply E1|]. eapply eff_trans; [apply eff_cancel_stream; try exact Pben | apply eff_take_req_count].
@@ -794,21 +865,21 @@ Proof.
   - apply pending_same. reflexivity.
 Qed.
 
-Lemma effo_wl_exit c le why : st_ok c -> effo P c (cl_wl_exit c le why).
+Lemma effo_wl_exit c le why : Eall (match le with Some e => e | None => CEConn end) -> st_ok c -> effo P c (cl_wl_exit c le why).
 Proof.
-  intro S. unfold cl_wl_exit.
+  intros He S. unfold cl_wl_exit.
   set (e := match le with Some e => e | None => CEConn end).
   set (c1 := cl_conn_close (cl_set_last_err c e)).
   set (c2' := cl_resolve_all c1 (map snd (cc_reqQueued c1)) e). set (c2 := ccu_reqQueued c2' []).
   set (c3' := cl_resolve_all c2 (cc_inQ c2) e). set (c3 := ccu_outQ (ccu_inQ c3' []) []).
   assert (E1 : effo P c c1). { eapply effo_trans; [apply effo_set_last_err; try exact Pben | apply effo_conn_close; try exact Pben]. }
-  assert (E2' : effo P c1 c2') by apply effo_resolve_all.
+  assert (E2' : effo P c1 c2') by (apply effo_resolve_all; exact He).
   assert (E2 : eff P c2' c2).
   { apply (eff_frame' P c2' c2 []); try reflexivity; auto.
     - apply same_filter. reflexivity.
     - exists (fun _ => false). apply filter_false.
     - apply pending_same. reflexivity. }
-  assert (E3' : effo P c2 c3') by apply effo_resolve_all.
+  assert (E3' : effo P c2 c3') by (apply effo_resolve_all; exact He).
   assert (E3 : eff P c3' c3).
   { apply (eff_frame' P c3' c3 []); try reflexivity; auto.
     - exists (fun _ => false). apply filter_false.
@@ -836,19 +907,19 @@ Proof.
     pose proof (st_ok_eff _ _ _ S1 (eff_trans _ _ _ _ (proj1 E2') E2)) as S2.
     destruct (s_inQ _ S _ H) as (x & G & _).
     destruct (e_ctx _ _ _ (eff_trans _ _ _ _ (proj1 E1) (eff_trans _ _ _ _ (proj1 E2') E2)) _ _ G) as (x2 & G2 & _).
-    destruct (resolve_all_answered P c2 (cc_inQ c2) e t x2) as (x3 & G3 & A3); [intros; apply (s_ret _ S2 _ _ H0) | rewrite I2; exact H | exact G2|].
+    destruct (resolve_all_answered P c2 (cc_inQ c2) e t x2 He) as (x3 & G3 & A3); [intros ? ? HH; apply (s_ret _ S2 _ _ HH) | rewrite I2; exact H | exact G2|].
     destruct (e_ctx _ _ _ (eff_trans _ _ _ _ E3 E4) _ _ G3) as (x4 & G4 & V). exists x4. split; [exact G4 | eapply cev_answered; eassumption].
   - (* on the table *)
     apply in_map_iff in H. destruct H as ([i u] & Hu & I). cbn [snd] in Hu. subst u.
     destruct (s_rq _ S _ _ I) as (x & G & _). destruct (e_ctx _ _ _ (proj1 E1) _ _ G) as (x1 & G1 & _).
-    destruct (resolve_all_answered P c1 (map snd (cc_reqQueued c1)) e t x1) as (x2 & G2 & A2);
-      [intros; apply (s_ret _ S1 _ _ H) | rewrite Q1; apply in_map_iff; exists (i, t); auto | exact G1|].
+    destruct (resolve_all_answered P c1 (map snd (cc_reqQueued c1)) e t x1 He) as (x2 & G2 & A2);
+      [intros ? ? HH; apply (s_ret _ S1 _ _ HH) | rewrite Q1; apply in_map_iff; exists (i, t); auto | exact G1|].
     destruct (e_ctx _ _ _ (eff_trans _ _ _ _ E2 (eff_trans _ _ _ _ (proj1 E3') (eff_trans _ _ _ _ E3 E4))) _ _ G2) as (x4 & G4 & V).
     exists x4. split; [exact G4 | eapply cev_answered; eassumption].
 Qed.
 
 Lemma effo_wl_after c : st_ok c -> effo P c (cl_wl_after cfg c).
-Proof. intro S. unfold cl_wl_after. destruct (negb (ccf_disableAcks cfg) && (3 <=? cc_unacks c)%Z); [apply effo_wl_exit, S | apply effo_refl]. Qed.
+Proof. intro S. unfold cl_wl_after. destruct (negb (ccf_disableAcks cfg) && (3 <=? cc_unacks c)%Z); [apply effo_wl_exit; [apply Eall_nr; [reflexivity | discriminate] | exact S] | apply effo_refl]. Qed.
 
 Lemma effo_wl_out c : st_ok c -> effo P c (cl_wl_out cfg c).
 Proof.
@@ -862,7 +933,7 @@ Proof.
   destruct (cl_can_write (ccu_outQ c q)).
   - eapply effo_trans; [exact E1|]. assert (E2 : effo P (ccu_outQ c q) (cl_note (ccu_outQ c q) o)) by (apply effo_note, Pben, Bo).
     eapply effo_trans; [exact E2 | apply effo_wl_after, (st_ok_eff _ _ _ S1 (proj1 E2))].
-  - eapply effo_trans; [exact E1 | apply effo_wl_exit, S1].
+  - eapply effo_trans; [exact E1 | apply effo_wl_exit; [apply Eall_nr; [reflexivity | discriminate] | exact S1]].
 Qed.
 
 Lemma effo_wl_win c order : st_ok c -> effo P c (cl_wl_win cfg c order).
@@ -876,12 +947,12 @@ Proof.
   pose proof (st_ok_eff _ _ _ S1 (proj1 E2)) as S2.
   destruct r; [| | contradiction].
   - eapply effo_trans; [exact E1|]. eapply effo_trans; [exact E2 | apply effo_wl_after, S2].
-  - eapply effo_trans; [exact E1|]. eapply effo_trans; [exact E2 | apply effo_wl_exit, S2].
+  - eapply effo_trans; [exact E1|]. eapply effo_trans; [exact E2 | apply effo_wl_exit; [apply Eall_nr; [reflexivity | discriminate] | exact S2]].
 Qed.
 
 Lemma effo_wl_ping c : st_ok c -> effo P c (cl_wl_ping cfg c).
 Proof.
-  intro S. unfold cl_wl_ping. destruct (cl_can_write c); [|apply effo_wl_exit, S].
+  intro S. unfold cl_wl_ping. destruct (cl_can_write c); [|apply effo_wl_exit; [apply Eall_nr; [reflexivity | discriminate] | exact S]].
   set (c1 := ccu_unacks _ _).
   assert (E1 : effo P c c1). { apply (effo_frame P c _ [COPing]); try reflexivity; auto; try (apply pending_same; reflexivity).
     all: repeat constructor; apply Pben; reflexivity. }
@@ -889,7 +960,7 @@ Proof.
 Qed.
 
 Lemma effo_wl_done c : st_ok c -> effo P c (cl_wl_done c).
-Proof. intro S. unfold cl_wl_done. destruct (cc_closed c); [apply effo_wl_exit, S | apply effo_refl]. Qed.
+Proof. intro S. unfold cl_wl_done. destruct (cc_closed c); [apply effo_wl_exit; [apply Eall_nr; [reflexivity | discriminate] | exact S] | apply effo_refl]. Qed.
 
 End EffoWL.
 
@@ -925,11 +996,11 @@ Proof. unfold cl_rl_fail. eapply effo_trans; [apply effo_set_last_err | apply ef
 
 Lemma effo_rl_panic c : P (COPanic 0) -> st_ok c -> effo P c (cl_rl_panic c).
 Proof.
-  intros Pp S. unfold cl_rl_panic.
+  intros Pp S. unfold cl_rl_panic. assert (He : Eall CEConn) by (apply Eall_nr; [reflexivity | discriminate]).
   set (c1 := cl_set_last_err (cl_note c (COPanic 0)) CEConn).
   set (c2' := cl_resolve_all c1 (map snd (cc_reqQueued c1)) CEConn). set (c2 := ccu_reqQueued c2' []).
   assert (E1 : effo P c c1). { eapply effo_trans; [apply effo_note, Pp | apply effo_set_last_err]. }
-  assert (E2' : effo P c1 c2') by apply effo_resolve_all.
+  assert (E2' : effo P c1 c2') by (apply effo_resolve_all; exact He).
   assert (E2 : eff P c2' c2).
   { apply (eff_frame' P c2' c2 []); try reflexivity; auto.
     - apply same_filter. reflexivity.
@@ -944,8 +1015,8 @@ Proof.
     cbn [c2 cc_inQ ccu_reqQueued]. unfold c2'. rewrite cc_inQ_cl_resolve_all. unfold c1. rewrite cc_inQ_cl_set_last_err. exact H.
   - apply in_map_iff in H. destruct H as ([i u] & Hu & I). cbn [snd] in Hu. subst u.
     destruct (s_rq _ S _ _ I) as (x & G & _). destruct (e_ctx _ _ _ (proj1 E1) _ _ G) as (x1 & G1 & _).
-    destruct (resolve_all_answered P c1 (map snd (cc_reqQueued c1)) CEConn t x1) as (x2 & G2 & A2);
-      [intros; apply (s_ret _ S1 _ _ H) | rewrite Q1; apply in_map_iff; exists (i, t); auto | exact G1|].
+    destruct (resolve_all_answered P c1 (map snd (cc_reqQueued c1)) CEConn t x1 He) as (x2 & G2 & A2);
+      [intros ? ? HH; apply (s_ret _ S1 _ _ HH) | rewrite Q1; apply in_map_iff; exists (i, t); auto | exact G1|].
     destruct (e_ctx _ _ _ (eff_trans _ _ _ _ E2 (proj1 E3)) _ _ G2) as (x4 & G4 & V).
     exists x4. split; [exact G4 | eapply cev_answered; eassumption].
 Qed.
@@ -965,14 +1036,58 @@ Qed.
 
 Definition rs_conn {A B C} (r : cconn hstate * A * B * C) : cconn hstate := fst (fst (fst r)).
 
+(* from here on the header-block registers, the response and gotStatus change: the analysis that cares about them
+   looks at dispatch itself (Proofs/CliResNil.v) *)
+Hypothesis W_any : forall c c' : cconn hstate, Wok hstate c c'.
+Hypothesis V_any : forall x x', Vok x x'.
+Hypothesis Enil : Eall CENil.
+
+Lemma effo_frame_rl c c' l :
+  cc_ctxs c' = cc_ctxs c -> cc_inQ c' = cc_inQ c -> cc_reqQueued c' = cc_reqQueued c -> cc_nextID c' = cc_nextID c ->
+  cc_goAway c' = cc_goAway c -> cc_closed c' = cc_closed c -> cc_wl_done c' = cc_wl_done c -> cc_rl_done c' = cc_rl_done c ->
+  cc_rl_stuck c' = cc_rl_stuck c -> cc_wl_stuck c' = cc_wl_stuck c ->
+  (Forall (fun o => benign o = true) (cc_outQ c) -> Forall (fun o => benign o = true) (cc_outQ c')) ->
+  (forall pb', In pb' (cc_pending c') -> exists pb, In pb (cc_pending c) /\ pb_id pb' = pb_id pb /\ pb_tag pb' = pb_tag pb) ->
+  cc_out c' = l ++ cc_out c -> Forall P l -> (herr_ok (cc_hdrErr c) -> herr_ok (cc_hdrErr c')) -> effo P c c'.
+Proof.
+  intros H1 H2 H3 H4 H5 H6 H7 H8 H9 H10 H11 H12 H13 H14 H15. apply effo_keep; [|assumption|assumption].
+  constructor; try congruence; auto.
+  - intros t x H. exists x. unfold cl_ctx_get in *. rewrite H1. split; [assumption | apply cev_refl].
+  - exists (fun _ => true). rewrite H2. apply filter_true.
+  - exists (fun _ => true). rewrite H3. apply filter_true.
+  - exists l. auto.
+Qed.
+
+Lemma read_header_field_err rseen status r k v : herr_ok (snd (cl_read_header_field rseen status r k v)).
+Proof.
+  unfold cl_read_header_field, herr_ok. intro e.
+  repeat match goal with
+         | |- context [if ?b then _ else _] => destruct b
+         | |- context [match parse_uint ?v with Some _ => _ | None => _ end] => destruct (parse_uint v)
+         end; cbn [snd]; intro H; inversion H; reflexivity.
+Qed.
+
+Lemma hdr_loop_herr fuel eh d fields rseen status herr res b : herr_ok herr ->
+  herr_ok (snd (fst (fst (fst (cl_hdr_loop dec_field fuel eh d fields rseen status herr res b))))).
+Proof.
+  revert d fields rseen status herr res b. induction fuel as [|fuel IH]; intros d fields rseen status herr res b Hh; cbn [cl_hdr_loop]; [exact Hh|].
+  destruct b as [|b0 b']; [exact Hh|]. destruct (dec_field d fields (b0 :: b')) as [kk vv rest d'|d'|d'|d'|]; try exact Hh.
+  - destruct res as [r|]; [destruct herr; [apply IH, Hh|] | apply IH, Hh].
+    pose proof (read_header_field_err rseen status r kk vv) as Hf.
+    destruct (cl_read_header_field rseen status r kk vv) as [[[rs st] r'] e']. apply IH. exact Hf.
+  - destruct eh; exact Hh.
+Qed.
+
 Lemma effo_read_header_fragment c id frag eh res :
   effo P c (rs_conn (cl_read_header_fragment dec_field c id frag eh res)).
 Proof.
   unfold cl_read_header_fragment.
+  pose proof (hdr_loop_herr (S (length (cc_hdrPrev c ++ frag))) eh (cc_dec c) (cc_hdrFields c) (cc_hdrRegularSeen c) (cc_hdrStatus c)
+                (cc_hdrErr c) res (cc_hdrPrev c ++ frag)) as Hh.
   destruct (cl_hdr_loop dec_field _ eh (cc_dec c) (cc_hdrFields c) (cc_hdrRegularSeen c) (cc_hdrStatus c) (cc_hdrErr c) res _)
-    as [[[[[[[d' fields] rseen] status] herr] res'] prev] e].
+    as [[[[[[[d' fields] rseen] status] herr] res'] prev] e]. cbn [fst snd] in Hh.
   destruct e; [destruct eh; cbn [negb]; [destruct herr | destruct (cl_maxHeaderPrev <? len prev)] | | |]; unfold rs_conn; cbn [fst];
-    (apply (effo_frame P c _ []); try reflexivity; auto; apply pending_same; reflexivity).
+    (apply (effo_frame_rl c _ []); try reflexivity; auto; try (apply pending_same; reflexivity)).
 Qed.
 
 Lemma read_header_fragment_no_panic c id frag eh res :
@@ -1002,7 +1117,8 @@ Proof.
     apply (effo_frame P c2 _ []); try reflexivity; auto. apply pending_same. reflexivity.
   - (* HEADERS *)
     eapply effo_trans; [|apply effo_read_header_fragment].
-    apply (effo_frame P c _ []); try reflexivity; auto. apply pending_same. reflexivity.
+    apply (effo_frame_rl c _ []); try reflexivity; auto; try (apply pending_same; reflexivity).
+    intros _ e He. discriminate.
   - apply effo_read_header_fragment.
 Qed.
 
@@ -1028,6 +1144,50 @@ Proof.
       (destruct res; [destruct (negb _ && negb _); [rewrite cc_ctxs_cl_update_window|]|]; reflexivity).
   - rewrite ctxs_read_header_fragment. reflexivity.
   - apply ctxs_read_header_fragment.
+Qed.
+
+(* the errors readStream hands to dispatch are never retryable, never nil *)
+Definition err_plain (e : cerr) : Prop := cl_retryable e = false /\ e <> CENil.
+Definition rs_plain (r : cl_rserr) : Prop := forall e, r = CRSStream e \/ r = CRSConn e -> err_plain e.
+
+Lemma rs_plain_none : rs_plain CRSNone. Proof. intros e [H|H]; discriminate. Qed.
+Lemma rs_plain_panic : rs_plain CRSPanic. Proof. intros e [H|H]; discriminate. Qed.
+Lemma rs_plain_conn e : err_plain e -> rs_plain (CRSConn e). Proof. intros He e0 [H|H]; inversion H; subst; exact He. Qed.
+Lemma rs_plain_stream e : err_plain e -> rs_plain (CRSStream e). Proof. intros He e0 [H|H]; inversion H; subst; exact He. Qed.
+Lemma err_plain_conn : err_plain CEConn. Proof. split; [reflexivity | discriminate]. Qed.
+Lemma err_plain_malformed : err_plain CEMalformed. Proof. split; [reflexivity | discriminate]. Qed.
+Lemma err_plain_reset code : err_plain (CEReset code). Proof. split; [reflexivity | discriminate]. Qed.
+Ltac plain := first [apply rs_plain_none | apply rs_plain_panic | apply rs_plain_conn, err_plain_conn
+                    | apply rs_plain_stream, err_plain_malformed | apply rs_plain_stream, err_plain_reset].
+
+Lemma read_header_fragment_errs c id frag eh res : herr_ok (cc_hdrErr c) ->
+  rs_plain (snd (cl_read_header_fragment dec_field c id frag eh res)).
+Proof.
+  intro Hc. unfold cl_read_header_fragment.
+  pose proof (hdr_loop_herr (S (length (cc_hdrPrev c ++ frag))) eh (cc_dec c) (cc_hdrFields c) (cc_hdrRegularSeen c) (cc_hdrStatus c)
+                (cc_hdrErr c) res (cc_hdrPrev c ++ frag) Hc) as Hh.
+  assert (HL : forall fuel eh d fields rseen status herr res b,
+             rs_plain (snd (cl_hdr_loop dec_field fuel eh d fields rseen status herr res b))).
+  { clear. induction fuel as [|fuel IH]; intros; cbn [cl_hdr_loop]; [plain|].
+    destruct b as [|b0 b']; [plain|].
+    destruct (dec_field d fields (b0 :: b')) as [kk vv rest d'|d'|d'|d'|]; cbn [snd]; try plain.
+    - destruct res as [r|]; [destruct herr; [apply IH|] | apply IH].
+      destruct (cl_read_header_field rseen status r kk vv) as [[[rs st] r'] e']. apply IH.
+    - destruct eh; cbn [snd]; plain. }
+  pose proof (HL (S (length (cc_hdrPrev c ++ frag))) eh (cc_dec c) (cc_hdrFields c) (cc_hdrRegularSeen c) (cc_hdrStatus c)
+                (cc_hdrErr c) res (cc_hdrPrev c ++ frag)) as He.
+  destruct (cl_hdr_loop dec_field _ eh (cc_dec c) (cc_hdrFields c) (cc_hdrRegularSeen c) (cc_hdrStatus c) (cc_hdrErr c) res _)
+    as [[[[[[[d' fields] rseen] status] herr] res'] prev] e]. cbn [fst snd] in Hh, He.
+  destruct e; [destruct eh; cbn [negb]; [destruct herr as [he|] | destruct (cl_maxHeaderPrev <? len prev)] | | |]; cbn [snd];
+    try exact He; try plain.
+  rewrite (Hh _ eq_refl). plain.
+Qed.
+
+Lemma read_stream_errs c fr res : herr_ok (cc_hdrErr c) -> rs_plain (snd (cl_read_stream dec_field c fr res)).
+Proof.
+  intro Hc. unfold cl_read_stream. destruct (sf_kind fr); cbn [snd]; try plain.
+  - apply read_header_fragment_errs. intros e H. discriminate.
+  - apply read_header_fragment_errs, Hc.
 Qed.
 
 Lemma rq_unique c id tag : st_ok c -> cl_req_find (cc_reqQueued c) id = Some tag ->
@@ -1102,6 +1262,9 @@ Proof. reflexivity. Qed.
 
 Variable P : coutev -> Prop.
 Hypothesis Pben : forall o, benign o = true -> P o.
+Hypothesis W_any : forall c c' : cconn hstate, Wok hstate c c'.
+Hypothesis V_any : forall x x', Vok x x'.
+Hypothesis Enil : Eall CENil.
 
 Lemma rq_unique_eff' c c' id tag : eff P c c' ->
   (forall t, In (id, t) (cc_reqQueued c) -> t = tag) -> forall t, In (id, t) (cc_reqQueued c') -> t = tag.
@@ -1136,30 +1299,46 @@ Lemma disp_chk_cev c1 fr ok res' err ok2 err2 : disp_chk c1 fr (disp_ok1 ok res'
   (forall x2, ok2 = Some x2 -> exists x, ok = Some x /\ cev x x2) /\ (err2 = CRSPanic -> err = CRSPanic).
 Proof.
   unfold disp_chk, disp_ok1. intro H. destruct ok as [x|]; [|destruct err; inversion H; subst; (split; [discriminate | auto])].
-  assert (V1 : cev x match res' with Some r => ctu_resp x r | None => x end) by (destruct res'; [apply cev_resp | apply cev_refl]).
+  assert (V1 : cev x match res' with Some r => ctu_resp x r | None => x end) by (destruct res'; [apply cev_resp, V_any | apply cev_refl]).
   set (x1 := match res' with Some r => ctu_resp x r | None => x end) in *.
   replace (match res' with Some r => Some (ctu_resp x r) | None => Some x end) with (Some x1) in H by (unfold x1; destruct res'; reflexivity).
   destruct err;
     [repeat match type of H with context [if ?b then _ else _] => destruct b end | ..]; inversion H; subst;
-    (split; [intros x2 E; inversion E; subst; exists x; split; [reflexivity|]; first [assumption | eapply cev_trans; [exact V1 | apply cev_gotStatus]] | congruence]).
+    (split; [intros x2 E; inversion E; subst; exists x; split; [reflexivity|]; first [assumption | eapply cev_trans; [exact V1 | apply cev_gotStatus, V_any]] | congruence]).
+Qed.
+
+Lemma disp_chk_plain c1 fr ok1 err : rs_plain err -> rs_plain (snd (disp_chk c1 fr ok1 err)).
+Proof.
+  intro H. unfold disp_chk. destruct ok1 as [x|]; [|exact H]. destruct err; try exact H.
+  repeat match goal with |- context [if ?b then _ else _] => destruct b end; cbn [snd];
+    first [exact H | apply rs_plain_stream; split; [reflexivity | discriminate]].
+Qed.
+
+Lemma disp_err3_plain fr ok2 err2 : rs_plain err2 -> rs_plain (disp_err3 fr ok2 err2).
+Proof.
+  intro H. unfold disp_err3. destruct ok2; [|exact H]. destruct err2; try exact H.
+  destruct (_ && _); [apply rs_plain_stream; split; [reflexivity | discriminate] | exact H].
 Qed.
 
 Lemma disp_err3_panic fr ok2 err2 : disp_err3 fr ok2 err2 = CRSPanic -> err2 = CRSPanic.
 Proof. unfold disp_err3. destruct ok2; [|auto]. destruct err2; auto. destruct (_ && _); [discriminate | auto]. Qed.
 
-Lemma disp_tail_spec c2 id ok2 ended err3 : st_ok c2 ->
+Lemma disp_tail_spec c2 id ok2 ended err3 : st_ok c2 -> rs_plain err3 ->
   (forall x2, ok2 = Some x2 -> forall t, In (id, t) (cc_reqQueued c2) -> t = ct_tag x2) ->
   effo P c2 (fst (disp_tail c2 id ok2 ended err3)) /\ snd (disp_tail c2 id ok2 ended err3) <> CDStuck /\
   (snd (disp_tail c2 id ok2 ended err3) = CDPanic -> err3 = CRSPanic).
 Proof.
-  intros S U. unfold disp_tail. destruct err3 as [|e|e|]; cbn [fst snd].
+  intros S PL U. unfold disp_tail.
+  assert (HE : forall e, err3 = CRSStream e \/ err3 = CRSConn e -> Eall e).
+  { intros e H. destruct (PL e H). apply Eall_nr; assumption. }
+  destruct err3 as [|e|e|]; cbn [fst snd].
   - split; [|split; [destruct (cl_gone_away _); discriminate | destruct (cl_gone_away _); discriminate]].
     destruct ok2 as [x2|]; [|apply effo_refl]. destruct ended; [|apply effo_refl]. apply effo_finish; auto.
   - split; [|split; [destruct (cl_gone_away _); discriminate | destruct (cl_gone_away _); discriminate]].
     destruct ok2 as [x2|]; [|apply effo_refl]. apply effo_finish; auto.
   - split; [|split; discriminate].
     assert (E : effo P c2 (cl_set_last_err c2 e)) by apply effo_set_last_err.
-    destruct ok2 as [x2|]; [|exact E]. eapply effo_trans; [exact E|]. apply effo_finish; [assumption | apply (st_ok_eff _ _ _ S (proj1 E)) |].
+    destruct ok2 as [x2|]; [|exact E]. eapply effo_trans; [exact E|]. apply effo_finish; [assumption | auto | apply (st_ok_eff _ _ _ S (proj1 E)) |].
     intros t I. apply (U _ eq_refl). rewrite cc_reqQueued_cl_set_last_err in I. exact I.
   - split; [apply effo_refl | split; [discriminate | reflexivity]].
 Qed.
@@ -1170,12 +1349,16 @@ Lemma effo_dispatch c fr : st_ok c -> an_ok c ->
 Proof.
   intros S A. rewrite cl_dispatch_eq. destruct (disp_pre_spec c (sf_sid fr) S A) as (c0 & ok & -> & E0 & Hok).
   pose proof (st_ok_eff _ _ _ S (proj1 E0)) as S0.
-  pose proof (effo_read_stream dec_field P c0 fr (match ok with Some x => Some (ct_resp x) | None => None end)) as E1.
-  pose proof (read_stream_no_panic dec_field c0 fr (match ok with Some x => Some (ct_resp x) | None => None end)) as NP.
-  pose proof (ctxs_read_stream dec_field c0 fr (match ok with Some x => Some (ct_resp x) | None => None end)) as C1.
-  destruct (cl_read_stream dec_field c0 fr _) as [[[c1 res'] ended] err]. unfold rs_conn in E1, C1. cbn [fst snd] in E1, NP, C1.
+  set (res0 := match ok with Some x => Some (ct_resp x) | None => None end).
+  assert (E1 : effo P c0 (rs_conn (cl_read_stream dec_field c0 fr res0))) by (apply effo_read_stream; assumption).
+  assert (NP : (forall d n b, dec_field d n b <> DPanic hstate) -> snd (cl_read_stream dec_field c0 fr res0) <> CRSPanic)
+    by (apply read_stream_no_panic).
+  assert (C1 : cc_ctxs (rs_conn (cl_read_stream dec_field c0 fr res0)) = cc_ctxs c0) by (apply ctxs_read_stream).
+  assert (PL1 : rs_plain (snd (cl_read_stream dec_field c0 fr res0))) by (apply read_stream_errs, (s_hdrErr _ S0)).
+  destruct (cl_read_stream dec_field c0 fr res0) as [[[c1 res'] ended] err]. unfold rs_conn in E1, C1. cbn [fst snd] in E1, NP, C1, PL1.
   pose proof (st_ok_eff _ _ _ S0 (proj1 E1)) as S1.
-  destruct (disp_chk c1 fr (disp_ok1 ok res') err) as [ok2 err2] eqn:K. destruct (disp_chk_cev _ _ _ _ _ _ _ K) as [H2 HP].
+  pose proof (disp_chk_plain c1 fr (disp_ok1 ok res') err PL1) as PL2.
+  destruct (disp_chk c1 fr (disp_ok1 ok res') err) as [ok2 err2] eqn:K. destruct (disp_chk_cev _ _ _ _ _ _ _ K) as [H2 HP]. cbn [snd] in PL2.
   cbv zeta. set (c2 := match ok2 with Some x => cl_ctx_put c1 x | None => c1 end).
   assert (E2 : effo P c1 c2).
   { unfold c2. destruct ok2 as [x2|]; [|apply effo_refl]. destruct (H2 _ eq_refl) as (x & -> & V).
@@ -1185,7 +1368,7 @@ Proof.
   assert (U2 : forall x2, ok2 = Some x2 -> forall t, In (sf_sid fr, t) (cc_reqQueued c2) -> t = ct_tag x2).
   { intros x2 -> t I. destruct (H2 _ eq_refl) as (x & -> & V). destruct (Hok _ eq_refl) as [_ U]. rewrite (cev_tag _ _ V).
     apply (rq_unique_eff' c0 c2 (sf_sid fr) (ct_tag x) (eff_trans _ _ _ _ (proj1 E1) (proj1 E2)) U t I). }
-  destruct (disp_tail_spec c2 (sf_sid fr) ok2 ended (disp_err3 fr ok2 err2) S2 U2) as (E3 & N3 & P3).
+  destruct (disp_tail_spec c2 (sf_sid fr) ok2 ended (disp_err3 fr ok2 err2) S2 (disp_err3_plain fr ok2 err2 PL2) U2) as (E3 & N3 & P3).
   split; [|split; [exact N3|]].
   - eapply effo_trans; [exact E0|]. eapply effo_trans; [exact E1|]. eapply effo_trans; [exact E2 | exact E3].
   - intros Q Hd. apply (NP Hd). apply HP. apply (disp_err3_panic fr ok2). apply P3. exact Q.
@@ -1201,12 +1384,13 @@ Variable P : coutev -> Prop.
 Hypothesis Pben : forall o, benign o = true -> P o.
 
 Lemma goaway_fail_spec l : forall c, st_ok c ->
+  (forall id t x, In (id, t) l -> cl_ctx_get c t = Some x -> ct_sid x = id /\ Eok id CEGoAway) ->
   snd (cl_goaway_fail c l) = false /\ effo P c (fst (cl_goaway_fail c l)) /\
   cc_inQ (fst (cl_goaway_fail c l)) = cc_inQ c /\ cc_reqQueued (fst (cl_goaway_fail c l)) = cc_reqQueued c /\
   (forall id t x, In (id, t) l -> cl_ctx_get c t = Some x ->
-     exists x', cl_ctx_get (fst (cl_goaway_fail c l)) t = Some x' /\ answered x' = true).
+     exists x', cl_ctx_get (fst (cl_goaway_fail c l)) t = Some x' /\ answered x' = true /\ ct_finished x' = true).
 Proof.
-  induction l as [|[id tag] l IH]; intros c S; cbn [cl_goaway_fail].
+  induction l as [|[id tag] l IH]; intros c S HL; cbn [cl_goaway_fail].
   - split; [reflexivity|]. split; [apply effo_refl|]. split; [reflexivity|]. split; [reflexivity|]. intros ? ? ? [].
   - set (c1 := ccu_open c (cc_open c - 1)%Z).
     assert (E1 : effo P c c1). { apply (effo_frame P c _ []); try reflexivity; auto. apply pending_same. reflexivity. }
@@ -1216,24 +1400,36 @@ Proof.
     destruct (cl_delete_pending 0 [] c1 id) as [c2 stuck]. cbn [fst snd] in *. subst stuck.
     pose proof (st_ok_eff _ _ _ S1 (proj1 E2)) as S2.
     set (c3 := cl_ctx_upd c2 tag (fun x => cl_ctx_resolve (ctu_finished x true) CEGoAway)).
-    assert (E3 : effo P c2 c3) by (apply effo_ctx_upd; intro; apply cev_finish_resolve).
+    assert (E02 : eff P c c2) by (eapply eff_trans; [apply E1 | apply E2]).
+    assert (E3 : effo P c2 c3).
+    { apply effo_ctx_upd'. intros x2 G2. apply cev_finish_resolve. destruct (eff_ctx_back _ _ _ _ _ E02 G2) as (x0 & G0 & V0).
+      destruct (HL id tag x0 (or_introl eq_refl) G0) as [Hs He]. rewrite (cev_sid _ _ V0), Hs. exact He. }
     pose proof (st_ok_eff _ _ _ S2 (proj1 E3)) as S3.
-    destruct (IH c3 S3) as (F & E4 & I4 & Q4 & A4).
-    assert (E03 : eff P c c3) by (eapply eff_trans; [apply E1|]; eapply eff_trans; [apply E2 | apply E3]).
+    assert (E03 : eff P c c3) by (eapply eff_trans; [apply E02 | apply E3]).
+    assert (HL3 : forall i t x, In (i, t) l -> cl_ctx_get c3 t = Some x -> ct_sid x = i /\ Eok i CEGoAway).
+    { intros i t x3 J G3. destruct (eff_ctx_back _ _ _ _ _ E03 G3) as (x0 & G0 & V0).
+      destruct (HL i t x0 (or_intror J) G0) as [Hs He]. rewrite (cev_sid _ _ V0). auto. }
+    destruct (IH c3 S3 HL3) as (F & E4 & I4 & Q4 & A4).
     split; [exact F|]. split; [eapply effo_trans; [exact E1|]; eapply effo_trans; [exact E2|]; eapply effo_trans; [exact E3 | exact E4]|].
     split; [rewrite I4; unfold c3; rewrite cc_inQ_cl_ctx_upd, I2; reflexivity|].
     split; [rewrite Q4; unfold c3; rewrite cc_reqQueued_cl_ctx_upd, Q2; reflexivity|].
     intros i t x [J|J] G.
     + inversion J; subst i t. destruct (e_ctx _ _ _ (eff_trans _ _ _ _ (proj1 E1) (proj1 E2)) _ _ G) as (x2 & G2 & _).
-      destruct (upd_resolve_answered c2 tag (fun y => ctu_finished y true) CEGoAway x2 G2) as (x3 & G3 & A3);
-        [reflexivity | apply (s_ret _ S2 _ _ G2)|].
-      destruct (e_ctx _ _ _ (proj1 E4) _ _ G3) as (x4 & G4 & V). exists x4. split; [exact G4 | eapply cev_answered; eassumption].
+      pose proof (upd_resolve_get c2 tag (fun y => ctu_finished y true) CEGoAway x2 G2 (fun _ => eq_refl)) as G3.
+      destruct (e_ctx _ _ _ (proj1 E4) _ _ G3) as (x4 & G4 & V). exists x4. split; [exact G4|]. split.
+      * eapply cev_answered; [exact V|]. apply answered_resolve'. cbn. apply (s_ret _ S2 _ _ G2).
+      * apply (cev_finished _ _ V). rewrite finished_resolve. reflexivity.
     + destruct (e_ctx _ _ _ E03 _ _ G) as (x3 & G3 & _). eapply A4; eassumption.
 Qed.
 
-Lemma effo_goaway c last : st_ok c -> effo P c (fst (cl_goaway c last)) /\ snd (cl_goaway c last) = false.
+Lemma effo_goaway c last : (forall id, last < id -> Eok id CEGoAway) -> st_ok c ->
+  effo P c (fst (cl_goaway c last)) /\ snd (cl_goaway c last) = false /\
+  cc_reqQueued (fst (cl_goaway c last)) = filter (fun e => negb (last <? fst e)) (cc_reqQueued c) /\
+  cc_goAway (fst (cl_goaway c last)) = true /\ cc_closeRef (fst (cl_goaway c last)) = last /\
+  (forall id t, In (id, t) (cc_reqQueued c) -> last < id ->
+     exists x', cl_ctx_get (fst (cl_goaway c last)) t = Some x' /\ answered x' = true /\ ct_finished x' = true).
 Proof.
-  intro S. unfold cl_goaway.
+  intros Hga S. unfold cl_goaway.
   set (c1 := ccu_closeRef _ last).
   set (above := filter (fun e => last <? fst e) (cc_reqQueued c1)).
   set (c2 := ccu_reqQueued c1 _).
@@ -1243,19 +1439,36 @@ Proof.
     - eexists. reflexivity.
     - apply pending_same. reflexivity. }
   pose proof (st_ok_eff _ _ _ S E2) as S2.
-  destruct (goaway_fail_spec above c2 S2) as (F & E3 & I3 & Q3 & A3). split; [|exact F].
+  assert (HL : forall id t x, In (id, t) above -> cl_ctx_get c2 t = Some x -> ct_sid x = id /\ Eok id CEGoAway).
+  { intros id t x2 J G2. apply filter_In in J. cbn [fst] in J. destruct J as [J L].
+    destruct (s_rq _ S _ _ J) as (x & G & Hs & _). destruct (e_ctx _ _ _ E2 _ _ G) as (x2' & G2' & V2). rewrite G2 in G2'. inversion G2'; subst x2'.
+    rewrite (cev_sid _ _ V2). split; [exact Hs | apply Hga; clear - L; lia]. }
+  destruct (goaway_fail_spec above c2 S2 HL) as (F & E3 & I3 & Q3 & A3).
+  assert (AB : forall id t, In (id, t) (cc_reqQueued c) -> last < id ->
+               exists x', cl_ctx_get (fst (cl_goaway_fail c2 above)) t = Some x' /\ answered x' = true /\ ct_finished x' = true).
+  { intros id t J L. destruct (s_rq _ S _ _ J) as (x & G & _). destruct (e_ctx _ _ _ E2 _ _ G) as (x2 & G2 & _).
+    apply (A3 id t x2); [|exact G2]. apply filter_In. cbn [fst]. split; [exact J | clear - L; lia]. }
+  split; [|split; [exact F|split; [exact Q3|split; [apply (e_goAway _ _ _ (proj1 E3)); reflexivity|split; [|exact AB]]]]].
+  2:{ assert (CR : forall l c0, cc_closeRef (fst (cl_goaway_fail c0 l)) = cc_closeRef c0).
+      { clear. induction l as [|[id tag] l IH]; intro c0; cbn [cl_goaway_fail]; [reflexivity|].
+        pose proof (cc_closeRef_cl_delete_pending _ (ccu_open c0 (cc_open c0 - 1)%Z) 0 [] id) as D.
+        destruct (cl_delete_pending 0 [] (ccu_open c0 (cc_open c0 - 1)%Z) id) as [c2 stuck]. cbn [fst] in D.
+        destruct stuck; [exact D|]. rewrite IH, cc_closeRef_cl_ctx_upd. exact D. }
+      rewrite CR. reflexivity. }
   split; [eapply eff_trans; [exact E2 | apply E3]|].
   intros t H N. destruct H as [H|H]; [exfalso; apply N; left; rewrite I3; exact H|].
   apply in_map_iff in H. destruct H as ([i u] & Hu & J). cbn [snd] in Hu. subst u.
   destruct (last <? i) eqn:L.
-  - destruct (s_rq _ S _ _ J) as (x & G & _). destruct (e_ctx _ _ _ E2 _ _ G) as (x2 & G2 & _).
-    apply (A3 i t x2); [|exact G2]. apply filter_In. cbn [fst]. split; [exact J | exact L].
+  - destruct (AB i t J) as (x' & G' & A' & _); [clear - L; lia|]. exists x'. auto.
   - exfalso. apply N. right. rewrite Q3. cbn [c2 cc_reqQueued ccu_reqQueued]. apply in_map_iff. exists (i, t). split; [reflexivity|].
     apply filter_In. cbn [fst]. rewrite L. split; [exact J | reflexivity].
 Qed.
 
-(* the recover of readLoop is either allowed to show in the trace, or never runs *)
-Hypothesis Ppanic : P (COPanic 0) \/ (forall d n b, dec_field d n b <> DPanic hstate).
+(* the recover of readLoop shows in the trace only if the decoder can panic *)
+Hypothesis Ppanic : ~ (forall d n b, dec_field d n b <> DPanic hstate) -> P (COPanic 0).
+Hypothesis W_any : forall c c' : cconn hstate, Wok hstate c c'.
+Hypothesis V_any : forall x x', Vok x x'.
+Hypothesis Enil : Eall CENil.
 
 Lemma effo_rl_frame c fr : st_ok c -> an_ok c -> effo P c (cl_rl_frame dec_field c fr).
 Proof.
@@ -1268,7 +1481,10 @@ Proof.
   set (c1 := if fkind_eqb (sf_kind fr) KWinUpd then _ else c).
   assert (E1 : effo P c c1) by (unfold c1; destruct (fkind_eqb (sf_kind fr) KWinUpd); [apply effo_add_window | apply effo_refl]).
   pose proof (st_ok_eff _ _ _ S (proj1 E1)) as S1. pose proof (an_ok_effo _ _ _ A E1) as A1.
-  destruct (effo_dispatch dec_field P Pben c1 fr S1 A1) as (E2 & NS & NP).
+  assert (D : effo P c1 (fst (cl_dispatch dec_field c1 fr)) /\ snd (cl_dispatch dec_field c1 fr) <> CDStuck /\
+              (snd (cl_dispatch dec_field c1 fr) = CDPanic -> ~ (forall d n b, dec_field d n b <> DPanic hstate)))
+    by (apply effo_dispatch; assumption).
+  destruct D as (E2 & NS & NP).
   destruct (cl_dispatch dec_field c1 fr) as [c2 r]. cbn [fst snd] in *.
   pose proof (st_ok_eff _ _ _ S1 (proj1 E2)) as S2.
   destruct r.
@@ -1276,15 +1492,18 @@ Proof.
   - eapply effo_trans; [exact E1|]. eapply effo_trans; [exact E2 | apply effo_rl_exit; try exact Pben].
   - contradiction.
   - eapply effo_trans; [exact E1|]. eapply effo_trans; [exact E2|]. apply effo_rl_panic; [exact Pben | | exact S2].
-    destruct Ppanic as [Q|Q]; [exact Q | exfalso; apply (NP eq_refl Q)].
+    apply Ppanic, NP, eq_refl.
 Qed.
 
-Lemma effo_rl_step c i : st_ok c -> an_ok c -> effo P c (cl_rl_step dec_field c i).
+Lemma effo_rl_step c i : st_ok c -> an_ok c ->
+  (forall fr, i = RFrame fr -> sf_kind fr = KGoAway -> sf_sid fr = 0 -> cc_netClosed c = false ->
+     forall id, sf_dep fr < id -> Eok id CEGoAway) ->
+  effo P c (cl_rl_step dec_field c i).
 Proof.
-  intros S A. unfold cl_rl_step. destruct (cc_netClosed c); [apply effo_rl_fail; try exact Pben|].
+  intros S A Hga. unfold cl_rl_step. destruct (cc_netClosed c) eqn:NC; [apply effo_rl_fail; try exact Pben|].
   destruct i as [fr| | |]; try apply effo_rl_fail; try exact Pben; [|apply effo_refl].
-  destruct (sf_sid fr =? 0); [|apply effo_rl_frame; assumption].
-  destruct (sf_kind fr); try apply effo_refl.
+  destruct (sf_sid fr =? 0) eqn:Z; [|apply effo_rl_frame; assumption].
+  destruct (sf_kind fr) eqn:K; try apply effo_refl.
   - (* SETTINGS *)
     destruct (cl_settings_deserialize _ _); [|apply effo_rl_fail; try exact Pben].
     destruct (flag_has (sf_flags fr) FL_ES); [apply effo_refl | apply effo_handle_settings; try exact Pben].
@@ -1292,9 +1511,19 @@ Proof.
     destruct (flag_has (sf_flags fr) FL_ES); [|apply effo_write_out; reflexivity].
     apply (effo_frame P c _ []); try reflexivity; auto. apply pending_same. reflexivity.
   - (* GOAWAY *)
-    destruct (effo_goaway c (sf_dep fr) S) as [E1 F1]. destruct (cl_goaway c (sf_dep fr)) as [c1 stuck]. cbn [fst snd] in *. subst stuck.
+    destruct (effo_goaway c (sf_dep fr) (Hga fr eq_refl K (proj1 (N.eqb_eq _ _) Z) eq_refl) S) as (E1 & F1 & _). destruct (cl_goaway c (sf_dep fr)) as [c1 stuck]. cbn [fst snd] in *. subst stuck.
     eapply effo_trans; [exact E1|]. apply effo_rl_frame; [apply (st_ok_eff _ _ _ S (proj1 E1)) | apply (an_ok_effo _ _ _ A E1)].
   - apply effo_add_window.
 Qed.
 
 End EffoRL2.
+
+End WithE.
+
+(* the instance that allows everything: for the structural invariants, which do not care *)
+Definition cp_any : cparams.
+Proof.
+  refine {| Eok := fun _ _ => True; Vok := fun _ _ => True; Wok := fun _ _ _ => True |}; auto.
+Defined.
+#[export] Instance cplain_any : cplain cp_any.
+Proof. intros sid e _ _. exact I. Qed.
